@@ -59,7 +59,12 @@ const zzSnippetAlphabet = " \t\n\rabA"
 func VerifC19_Snippet() {
 	maxLen := nd.Param("MAXLEN", 5)
 	n := nd.Choice("len", maxLen+1)
-	snippet := nd.String("snip", n, zzSnippetAlphabet)
+	// ALPHABET=1: line-structure letters only (CR, LF, a, b), which lets longer snippets in
+	alphabet := zzSnippetAlphabet
+	if nd.Param("ALPHABET", 0) == 1 {
+		alphabet = "\n\rab"
+	}
+	snippet := nd.String("snip", n, alphabet)
 	k1 := zzKeywordChoices[nd.Choice("k1", len(zzKeywordChoices))]
 	k2 := nd.String("k2", 1+nd.Choice("k2len", 2), "abA")
 	keywords := []string{k1, k2}
